@@ -2,10 +2,10 @@ package an
 
 import (
 	"fmt"
-	"os"
 	"go/constant"
 	"go/token"
 	"go/types"
+	"os"
 	"regexp"
 	"regexp/syntax"
 	"strings"
